@@ -250,6 +250,8 @@ namespace sqf::parser::preprocessor
             std::vector<file_scope> m_file_scopes;
             std::unordered_set<std::string> m_visited;
             bool m_errflag = false;
+            // Names of the macros whose bodies are being expanded right now (innermost last)
+            std::vector<std::string> m_expanding;
             impl_default* m_owner;
             std::unordered_map<std::string, ::sqf::runtime::parser::macro> m_macros;
 
